@@ -922,6 +922,122 @@ def gen_scenarios(tier, rnd, lz=None):
 
 
 # ---- run ----------------------------------------------------------------------
+# ------------------------------------------------------------------ extraction cross-check (vm_compute)
+def coq_request(line):
+    """one `ps ...` driver request as the Gallina term `show_ps ...` (same arguments, same order as drv_c03.ml);
+    the term syntax is the one of drv_c01.ml, rendered by c01.coq_msg / coq_reply / coq_hexbytes"""
+    w = line.split(" ")
+    if len(w) != 17 or w[0] != "ps":
+        raise ValueError("not a ps request")
+    _, tr, code, ios_id, a, ltsk, wa, sa_code, sa_salt, sa_b, sa_id, sa_ltsk, m2, m4, m6, rid, rltpk = w
+    c = (f"{{| ps_code := {H.coq_msg(code)}; ps_ios_id := {H.coq_hexbytes(ios_id)}; ps_a := {int(a)}%N; "
+         f"ps_ltsk := {int(ltsk)}%N |}}")
+    acc = (f"{{| sa_code := {H.coq_msg(sa_code)}; sa_salt := {H.coq_msg(sa_salt)}; sa_b := {int(sa_b)}%N; "
+           f"sa_id := {H.coq_hexbytes(sa_id)}; sa_ltsk := {int(sa_ltsk)}%N |}}")
+    rec = "None" if rid == "none" else f"(Some ({H.coq_hexbytes(rid)}, {H.coq_msg(rltpk)}))"
+    return (f"(show_ps {dict(ip='TIP', ble='TBLE', coap='TCOAP')[tr]} {c} {'true' if wa == '1' else 'false'} {acc} "
+            f"{H.coq_reply(m2)} {H.coq_reply(m4)} {H.coq_reply(m6)} {rec})")
+
+
+XC_PRELUDE = """From Coq Require Import List NArith Bool.
+From AHK Require Import Lib.Res Lib.ByteStr Model.Tlv Model.Sym Model.Setup.
+Import ListNotations.
+Fixpoint items_eqb (a b : list sitem) : bool :=
+  match a, b with
+  | [], [] => true
+  | (k, v) :: r, (k', v') :: s => N.eqb k k' && msg_eqb v v' && items_eqb r s
+  | _, _ => false
+  end.
+Definition show_fail (f : fail) : N :=
+  match f with FInvalid => 0 | FErr _ => 1 | FAuthTag => 2 | FParse => 3 | FWrongId => 4 | FSig => 5 | FProof => 6
+  | FCrash => 7 end%N.
+Definition show_ob (o : option bool) : N := match o with None => 2 | Some true => 1 | Some false => 0 end%N.
+Definition show_b (b : bool) : N := if b then 1%N else 0%N.
+Definition show_ps (tr : transport) (c : ps_cfg) (wa : bool) (a : sacc) (m2x m4x m6x : option (list sitem))
+           (impl_rec : option (bytes * msg)) : list N :=
+  let t := ps_exchange tr c wa a m2x m4x m6x in
+  [ (match m2x with None => 1 | Some x => show_b (items_eqb x (pt_m2_spec t)) end);
+    (match pt_result t with SDone _ => 0 | SSend _ _ => 1 | SUnsup => 2 | SFail f => 10 + show_fail f end);
+    show_ob (pt_m3_accepted t); show_ob (pt_m5_accepted t);
+    (match pt_result t with
+     | SDone r =>
+         match impl_rec with
+         | None => 0
+         | Some (rid, rltpk) =>
+             show_b (bytes_eqb (r_acc_id r) rid && msg_eqb (r_acc_ltpk r) rltpk && bytes_eqb (r_ios_id r) (ps_ios_id c)
+                     && N.eqb (r_ios_ltsk r) (ps_ltsk c) && msg_eqb (r_ios_ltpk r) [APub (ps_ltsk c)])
+         end
+     | _ => 2
+     end);
+    (match pt_result t, pt_stored t with
+     | SDone _, Some (cid, cpk) => show_b (msg_eqb cid (lit (ps_ios_id c)) && msg_eqb cpk [APub (ps_ltsk c)])
+     | SDone _, None => 0
+     | _, _ => 2
+     end) ]%N.
+"""
+XC_FAIL = ["invalid", "error-item", "authtag", "parse", "wrongid", "signature", "proof", "crash"]
+
+
+def xc_expected(answer):
+    """the driver's answer line as the list of numbers show_ps yields (None if it is not an answer line)"""
+    try:
+        p = dict(x.split("=", 1) for x in answer.split(" "))
+        if set(p) != {"m2spec", "result", "m3acc", "m5acc", "rec", "stored"}:
+            return None
+        res = p["result"]
+        rc = 10 + XC_FAIL.index(res[5:]) if res.startswith("fail:") else {"done": 0, "send": 1, "unsupported": 2}[res]
+        ob = {"-": 2, "1": 1, "0": 0}
+        return [{"0": 0, "1": 1}[p["m2spec"]], rc, ob[p["m3acc"]], ob[p["m5acc"]], ob[p["rec"]], ob[p["stored"]]]
+    except (KeyError, ValueError):
+        return None
+
+
+def xc_sample(pairs, n=24):
+    """deterministic sample of the run's (request, answer) stream: the shortest request of every distinct driver
+    answer (rotating over the transports), topped up with further (transport, answer, which replies were
+    substituted, implementation record present) classes, evenly spaced"""
+    groups = {}
+    for req, ans in pairs:
+        w = req.split(" ")
+        if len(w) != 17 or len(req) > 6000:
+            continue
+        k = (ans, w[1], w[13] != "honest", w[14] != "honest", w[15] != "none")
+        if k not in groups or len(req) < len(groups[k][0]):
+            groups[k] = (req, ans)
+    picked = []
+    for i, ans in enumerate(sorted({k[0] for k in groups})):
+        ks = sorted(k for k in groups if k[0] == ans)
+        pref = [k for k in ks if k[1] == TRANSPORTS[i % 3]] or ks
+        picked.append(pref[0])
+    picked = picked[:n]
+    rest = [k for k in sorted(groups) if k not in picked]
+    room = n - len(picked)
+    if room > 0 and rest:
+        step = max(1, len(rest) // room)
+        picked += rest[::step][:room]
+    return [groups[k] for k in picked]
+
+
+def vm_crosscheck(ctx, sample):
+    """Evaluate the sampled requests inside Coq (`Eval vm_compute`) through the SAME model functions the extracted
+    driver calls (ps_exchange, msg_eqb, bytes_eqb, lit, s_dh, srp_kc, srp_ks) and compare every field of the driver's
+    answer.  Takes extraction + ocaml/drv.ml + ocaml/drv_c03.ml out of the single-point-of-trust position.
+    Returns (number of requests evaluated, list of disagreements)."""
+    import re
+    from common import coq_eval
+    body = [XC_PRELUDE] + [f"Eval vm_compute in {coq_request(req)}." for req, _ in sample]
+    out = coq_eval(ctx["verif"], "C03", "crosscheck", "\n".join(body) + "\n", timeout=120)
+    blocks = out.split("= ")[1:]
+    bad = []
+    if len(blocks) != len(sample):
+        bad.append(dict(request=None, driver=None, vm_compute=f"{len(blocks)} results for {len(sample)} requests"))
+    for (req, ans), blk in zip(sample, blocks):
+        got = [int(x) for x in re.findall(r"(\d+)%N", blk.split(":")[0])]
+        if xc_expected(ans) != got:
+            bad.append(dict(request=req, driver=ans, vm_compute=got))
+    return len(blocks), bad
+
+
 def coarse(model_line):
     parts = dict(x.split("=", 1) for x in model_line.split(" "))
     res, cls = parts["result"], None
@@ -973,7 +1089,8 @@ def run(ctx):
         if "harness_error" in r:
             raise HarnessError(r["harness_error"])
     lines = [r["model_req"] for r in recs if r["model_req"]]
-    answers = iter(drv.batch(lines))
+    model_answers = drv.batch(lines)
+    answers = iter(model_answers)
     n_model = 0
     exp_lists = set()
     for s, r in zip(scns, recs):
@@ -1064,6 +1181,15 @@ def run(ctx):
                                       + (" after a link drop and the library's own retry" if link.fault else "")
                                       + " must succeed: " + "; ".join(problems), True, **payload))
     cov.extra["real_glue_pairings"] = n_link
+    # ---- extraction cross-check: a sample of the same requests evaluated by the Coq kernel's VM
+    if not ctx.get("replay"):
+        n_xc, xc_bad = vm_crosscheck(ctx, xc_sample(list(zip(lines, model_answers))))
+        cov.extra["vm_compute_crosscheck"] = {"requests": n_xc, "disagreements": len(xc_bad)}
+        if xc_bad:
+            viol.append(violation("extraction-vs-vm_compute",
+                                  f"the extracted driver and vm_compute disagree on {len(xc_bad)} of {n_xc} sampled requests "
+                                  f"(first: driver '{xc_bad[0]['driver']}', vm_compute {xc_bad[0]['vm_compute']})", False,
+                                  disagreements=xc_bad[:5]))
     cov.extra["exhaustive"] = True
     cov.extra["exhaustive_part"] = ("every single-bit flip of every byte of the honest M4 and M6 of one exchange (IP; other "
                                     "transports bits 0 and 7; thorough: everything) and of the TLV headers, state and salt "
